@@ -1735,6 +1735,8 @@ class JobFloatParameterDefinition(OpenJDModel_v2023_09):
             value = Decimal(str(value))
         except InvalidOperation:
             raise ValueError(f"Value ({value}) for parameter {self.name} must be floating point.")
+        if not value.is_finite():
+            raise ValueError(f"Value ({value}) for parameter {self.name} must be a finite number.")
         if self.allowedValues and value not in self.allowedValues:
             raise ValueError(f"Parameter {self.name} value ({value}) not in allowedValues.")
         if self.minValue and value < self.minValue:
